@@ -99,7 +99,7 @@ structure Blk where
 deriving Repr
 
 inductive LMRef where
-  | blk (name : String)
+  | blk (r : Ref)
   | meth (r : Ref)
 deriving Repr
 
@@ -110,8 +110,9 @@ structure Comp where
   blks : List Blk := []
   /-- `U(x) < U(y)`: own blocks (`([], "b")`) or blocks of descendants (`s.c.get_update_block("b")` = `(["c"], "b")`) -/
   uu : List (Ref × Ref) := []
-  rdu : List (Ref × Bool × String) := []
-  wru : List (Ref × Bool × String) := []
+  /-- `RD(x) < U(b)` / `WR(x) < U(b)`: the block `b` is an own one (`([], "b")`) or one of a descendant -/
+  rdu : List (Ref × Bool × Ref) := []
+  wru : List (Ref × Bool × Ref) := []
   mcs : List (LMRef × LMRef × Bool) := []
   conns : List (Ref × Ref) := []
   consts : List (Ref × String) := []
@@ -124,7 +125,7 @@ abbrev Hier := List (Name × Comp)
 def absr (q : Name) (r : Ref) : Sig := (q ++ r.1, r.2)
 
 def absm (q : Name) : LMRef → MRef
-  | .blk n => .blk (q, n)
+  | .blk r => .blk (absr q r)
   | .meth r => .meth (absr q r)
 
 def blkEntries (q : Name) (b : Blk) : List Entry :=
@@ -143,8 +144,8 @@ def contrib (q : Name) (c : Comp) : List Entry :=
   ++ c.mports.map (fun x => Entry.mport (q, x.1) x.2)
   ++ c.blks.flatMap (blkEntries q)
   ++ c.uu.map (fun x => Entry.uu q (absr q x.1) (absr q x.2))
-  ++ c.rdu.map (fun x => Entry.rdu q (absr q x.1) x.2.1 (q, x.2.2))
-  ++ c.wru.map (fun x => Entry.wru q (absr q x.1) x.2.1 (q, x.2.2))
+  ++ c.rdu.map (fun x => Entry.rdu q (absr q x.1) x.2.1 (absr q x.2.2))
+  ++ c.wru.map (fun x => Entry.wru q (absr q x.1) x.2.1 (absr q x.2.2))
   ++ c.mcs.map (fun x => Entry.mc q (absm q x.1) (absm q x.2.1) x.2.2)
   ++ c.conns.flatMap (fun x =>
       [Entry.edge (.sig (absr q x.1)) (.sig (absr q x.2)), Entry.edge (.sig (absr q x.2)) (.sig (absr q x.1))])
